@@ -168,7 +168,10 @@ def r1(ctx, prog):
             return f.mentions_field(ln, "block_size") and not f.mentions_decl(ln, f.param_id(2))
         def not_fiz(lab, p, q):
             return not any(pol and rl.field_is(f, e, "free_is_zero") for e, pol in cfg.facts(lab))
-        w = cfg.must_pass(starts, cfg.exit_points(), full_zero, edge_ok=not_fiz)
+        zfalse = ztrue_edges(f, [3])
+        def thr(e):
+            return full_zero(e) or (rl.is_call(f, e, "_mi_malloc_generic") and rl.var_of(f, f.nodes[e]["args"][2]) == zp)
+        w = cfg.must_pass([cfg.entry], cfg.exit_points(), thr, edge_ok=lambda lab, p, q: not_fiz(lab, p, q) and zfalse(lab, p, q))
         ctx.check(R, w is None, f.where(), "zero edge: memzero over page->block_size (minus padding) on every path unless page->free_is_zero", key="C04.R1:full", witness=w)
         # free_is_zero edge clears the link word
         fz = [q for p, q, e, pol in rl.edges_with_fact(f, lambda e, pol: pol and rl.field_is(f, e, "free_is_zero"))]
